@@ -22,6 +22,9 @@
 #include <sys/stat.h>
 #include <sys/wait.h>
 #include <unistd.h>
+#include <thread>
+#include <mutex>
+#include <atomic>
 
 using namespace drv;
 
@@ -172,6 +175,43 @@ static int treeWork(size_t index, size_t K, size_t N, long long barrier, const s
     int rc = childWork(index, N, barrier, dir);
     if (kid > 0) { int st = 0; waitpid(kid, &st, 0); if (!WIFEXITED(st) || WEXITSTATUS(st) != 0) rc = rc ? rc : 9; }
     return rc;
+}
+
+// id_threads <K> <N> => ok <total> <distinct>   K threads of ONE process draw N ids each at the same time (started together, spinning on
+// a flag); run in a forked child so that a crash of a racing generator is an answer (`err crashed`) and not the end of the harness
+DRV_OP(id_threads) {
+    if (a.size() != 3) throw ProtoError("id_threads arity");
+    size_t K = tokNat(a[1]), N = tokNat(a[2]);
+    int fd[2];
+    if (pipe(fd) != 0) throw ProtoError("pipe");
+    std::cout.flush(); fflush(stdout); fflush(stderr);
+    pid_t pid = fork();
+    if (pid < 0) throw ProtoError("fork");
+    if (pid == 0) {
+        close(fd[0]);
+        std::vector<std::vector<std::string>> got(K);
+        std::atomic<bool> go(false);
+        std::vector<std::thread> th;
+        for (size_t k = 0; k < K; k++) th.emplace_back([&, k]() {
+            while (!go.load()) {}
+            got[k].reserve(N);
+            for (size_t i = 0; i < N; i++) got[k].push_back(nix::util::createId());
+        });
+        go.store(true);
+        for (auto &t : th) t.join();
+        std::set<std::string> all; size_t total = 0;
+        for (auto &g : got) for (auto &x : g) { all.insert(x); total++; }
+        std::string r = std::to_string(total) + " " + std::to_string(all.size()) + "\n";
+        ssize_t w = write(fd[1], r.data(), r.size()); (void) w;
+        _exit(0);
+    }
+    close(fd[1]);
+    std::string buf; char c;
+    while (read(fd[0], &c, 1) == 1 && c != '\n') buf.push_back(c);
+    close(fd[0]);
+    int st = 0; waitpid(pid, &st, 0);
+    if (!WIFEXITED(st) || WEXITSTATUS(st) != 0 || buf.empty()) return "err crashed";
+    return "ok " + buf;
 }
 
 DRV_OP(id_race) {
